@@ -376,6 +376,34 @@ func (p *xprog) step() {
 		p.ops["alloca/store/gep/load"]++
 		p.add(xval{kind: "int", w: w, u: stored[k].u, v: p.named(b.NewLoad(et, gp))})
 	case 12: // struct aggregate: insertvalue / extractvalue
+		if rng.Intn(2) == 0 {
+			// nested structs: every level is stepped into with an index of its own
+			inner := types.NewStruct(types.I8, types.I64)
+			elem := types.NewStruct(types.I16, types.I32)
+			st := types.NewStruct(types.I32, inner, types.NewArray(2, elem))
+			x, y, z, u, v := p.pickInt(32), p.pickInt(8), p.pickInt(64), p.pickInt(16), p.pickInt(32)
+			var agg value.Value = constant.NewUndef(st)
+			agg = p.named(b.NewInsertValue(agg, x.v, 0))
+			agg = p.named(b.NewInsertValue(agg, y.v, 1, 0))
+			agg = p.named(b.NewInsertValue(agg, z.v, 1, 1))
+			agg = p.named(b.NewInsertValue(agg, u.v, 2, 1, 0))
+			agg = p.named(b.NewInsertValue(agg, v.v, 2, 0, 1))
+			p.ops["insertvalue/extractvalue(nested)"]++
+			switch rng.Intn(5) {
+			case 0:
+				p.add(xval{kind: "int", w: 8, u: y.u, v: p.named(b.NewExtractValue(agg, 1, 0))})
+			case 1:
+				p.add(xval{kind: "int", w: 64, u: z.u, v: p.named(b.NewExtractValue(agg, 1, 1))})
+			case 2:
+				p.add(xval{kind: "int", w: 16, u: u.u, v: p.named(b.NewExtractValue(agg, 2, 1, 0))})
+			case 3:
+				p.add(xval{kind: "int", w: 32, u: v.u, v: p.named(b.NewExtractValue(agg, 2, 0, 1))})
+			default:
+				in := p.named(b.NewExtractValue(agg, 1))
+				p.add(xval{kind: "int", w: 64, u: z.u, v: p.named(b.NewExtractValue(in, 1))})
+			}
+			return
+		}
 		st := types.NewStruct(types.I32, types.NewArray(2, types.I8), types.I64)
 		x, y, z := p.pickInt(32), p.pickInt(8), p.pickInt(64)
 		var agg value.Value = constant.NewUndef(st)
